@@ -248,6 +248,14 @@ def r_tree_chain(ck: Checker) -> None:
         ck.violation("R-TREE-IDENT", g, memb[0], "tree queries compare nodes by identity (twins that are == sit at different positions)",
                      construct=f"Tree.is_ancestor: {norm(memb[0])} compares nodes by value (membership test uses ==)")
         return
+    # every answer is given after the node was looked up in the tree (a foreign node raises KeyError, never gets an answer)
+    early = [lf for lf in decision_tree(body) if lf.outcome == "return" and not any(isinstance(st, (ast.For, ast.While)) for st in lf.stmts)
+             and not any("get_ancestors(" in norm(x) or "get_parent(" in norm(x) or "_node_to_" in norm(x) for x in [lf.value] + lf.stmts if x is not None)
+             and not any("get_ancestors(" in k or "get_parent(" in k or "_node_to_" in k for k in lf.assign)]
+    if early:
+        ck.violation("R-TREE-RAISE", g, g.node, "Tree.is_ancestor raises KeyError for a node outside the tree (every answer follows a lookup of the node)",
+                     construct=f"Tree.is_ancestor: answers {early[0].val()} under {early[0].assign} without looking the node up")
+        return
     sr = search_loop(body)
     bad = None
     if sr.prologue:
@@ -318,6 +326,28 @@ def r_tree_type(ck: Checker) -> None:
     (ck.violation if bad else ck.holds)("R-TREE-TYPE", f, f.node, what, evaluations=len(leaves), **({"construct": f"get_first_ancestor_of_type: {bad[0]}"} if bad else {}))
 
 
+def r_tree_fresh(ck: Checker) -> None:
+    """to_tree() builds a new Tree from the node it is called on, every time (a tree found by id would describe another root object
+    once the id has been re-assigned)."""
+    f = ck.repo.func("pyoak.node", "ASTNode.to_tree")
+    what = "ASTNode.to_tree returns a Tree constructed from this very node on every call"
+    bad = None
+    n_ret = 0
+    for lf in decision_tree([st for st in strip_docstring(f.node.body) if not isinstance(st, (ast.Import, ast.ImportFrom))], resolve="calls"):
+        if lf.outcome != "return" or lf.value is None:
+            continue
+        n_ret += 1
+        v = lf.value
+        if not (isinstance(v, ast.Call) and (dotted(v.func) or "").split(".")[-1] in ("Tree", "PyOakTree") and [norm(a) for a in v.args] == ["self"] and not v.keywords):
+            bad = f"returns {norm(v)[:60]} under {lf.assign}"
+    if bad:
+        ck.violation("R-TREE-STATE", f, f.node, what, construct=f"ASTNode.to_tree: {bad}")
+    elif not n_ret:
+        raise Unsupported("ASTNode.to_tree has no return path", f.node)
+    else:
+        ck.holds("R-TREE-STATE", f, f.node, what, evaluations=n_ret)
+
+
 def r_tree_state(ck: Checker) -> None:
     """Tree queries are pure functions of the tables built at construction: no method but __init__ writes Tree state."""
     c = ck.repo.cls(TREE, "Tree")
@@ -363,6 +393,7 @@ def run(ck: Checker) -> None:
     ck.guard("R-TREE-CHAIN", lambda: r_tree_chain(ck))
     ck.guard("R-TREE-TYPE", lambda: r_tree_type(ck))
     ck.guard("R-TREE-STATE", lambda: r_tree_state(ck))
+    ck.guard("R-TREE-STATE", lambda: r_tree_fresh(ck))
     ck.guard("R-PRESENCE", lambda: T.r_presence(ck))
     ck.require_count("R-TREE-FILL", 5)
     ck.require_count("R-TREE-RAISE", 4)
